@@ -1,6 +1,6 @@
 (* C08 - API misuse and sampler failures surface as errors, never panics or stale answers. *)
 From Coq Require Import ZArith NArith List Bool Floats.
-From OX Require Import Numerics.FloatBits Planners.Model Proofs.NoPanic Proofs.ApiStruct Proofs.Final.
+From OX Require Import Numerics.FloatBits Planners.Model Proofs.NoPanic Proofs.ApiStruct Proofs.Final Proofs.PrmInv Proofs.PrmTotal.
 Import ListNotations.
 
 Section C08.
@@ -63,6 +63,14 @@ Theorem C08_rrtstar_never_panics : well_formed ->
   forall seeded cs s rs, run rrtstar_step (new_planner seeded) cs = (s, rs) -> Forall (fun r => r <> RPanic) rs.
 Proof. intros (A & B & C). exact (rrtstar_never_panics dist interp lvs valid goal starts u64_at usample gsample maxd bias radius A B C). Qed.
 
+(* PRM: a query on a well-formed roadmap (C18 invariant, which holds in every reachable state) always returns -
+   a path or an error, never a panic (index, missing parent-map key) and never a non-terminating extraction *)
+Theorem C08_prm_query_always_returns : forall b p v rm,
+  RmInv dist interp lvs valid radius v rm -> starts p <> [] ->
+  prm_query dist interp lvs valid goal starts radius b p v rm <> RPanic /\
+  prm_query dist interp lvs valid goal starts radius b p v rm <> RHang.
+Proof. exact (prm_query_total dist interp lvs valid goal starts radius). Qed.
+
 End C08.
 
 (* Outside [well_formed] the faithful model (and the code) panics: the three classes recorded as
@@ -96,6 +104,7 @@ Print Assumptions C08_prm_unsampled.
 Print Assumptions C08_rrt_never_panics.
 Print Assumptions C08_rrtconnect_never_panics.
 Print Assumptions C08_rrtstar_never_panics.
+Print Assumptions C08_prm_query_always_returns.
 Print Assumptions C08_refuted_sampler_fault.
 Print Assumptions C08_refuted_bias_out_of_range.
 Print Assumptions C08_refuted_empty_start.
